@@ -63,3 +63,36 @@ def engine_data(engine_id, **kw):
     import openpectus.aggregator.models as Mdl
     return Mdl.EngineData(engine_id=engine_id, computer_name="c", engine_version="1", uod_name="u",
                           uod_author_name="a", uod_author_email="e", uod_filename="f", location="l", **kw)
+
+
+def reading(tag_name):
+    import openpectus.protocol.models as PM
+    return PM.ReadingInfo(discriminator="reading", tag_name=tag_name, valid_value_units=None,
+                          entry_data_type=None, commands=[], command_options=None)
+
+
+def tag_value(name, value, tick_time):
+    import openpectus.protocol.models as PM
+    return PM.TagValue(name=name, tick_time=float(tick_time), value=value, value_unit=None)
+
+
+def plot_rows(session_scope=None):
+    """all PlotLogEntryValue rows as (plot log run_id, tag name, value_int, tick_time), in insertion order"""
+    from openpectus.aggregator.data import database
+    import openpectus.aggregator.data.models as DMdl
+    from sqlalchemy import select
+    with database.create_scope():
+        s = database.scoped_session()
+        q = (select(DMdl.PlotLog.run_id, DMdl.PlotLogEntry.name, DMdl.PlotLogEntryValue.value_int,
+                    DMdl.PlotLogEntryValue.tick_time)
+             .join(DMdl.PlotLogEntry, DMdl.PlotLogEntryValue.plot_log_entry_id == DMdl.PlotLogEntry.id)
+             .join(DMdl.PlotLog, DMdl.PlotLogEntry.plot_log_id == DMdl.PlotLog.id)
+             .order_by(DMdl.PlotLogEntryValue.id))
+        return [tuple(r) for r in s.execute(q).all()]
+
+
+def in_loop(fn, *a, **kw):
+    """run a synchronous function inside the event loop (the code calls asyncio.create_task)"""
+    async def co():
+        return fn(*a, **kw)
+    return run(co())
